@@ -120,7 +120,7 @@ def run(chk):
     mexe, wrapper = build(chk)
     cases, meta = gen_cases(chk)
     # API level: every code point of every shipped font, direct vs cached
-    fonts = FONTS if chk.tier == 'thorough' else FONTS[:6]
+    fonts = FONTS if chk.tier == 'thorough' else FONTS[:3]
     fcases = []
     for fn in fonts:
         for opts in (0, 4):
